@@ -271,11 +271,15 @@ Definition naked_num (D : dopts) (bs : list N) : res item :=
       else Ok (IUint (Z.to_N f))
     else fl.
 
-(* DecodeNaked on a quoted string where a map key is expected, MapKeyAsString on the decoder's handle *)
+(* DecodeNaked on a quoted string where a map key is expected, MapKeyAsString on the decoder's handle.
+   Since repair F09-4 only a string that IS a JSON number literal (jsonIsNumberLiteral, modelled in
+   C09/Model.v) is handed to the lenient number reader: ".5", "1.", "-", "e5", "+5", "007" stay strings. *)
 Definition quoted_key (D : dopts) (bs : list N) : item :=
   if eqbl bs t_true then IBool true
   else if eqbl bs t_false then IBool false
-  else match naked_num D bs with Ok i => i | _ => IStr bs end.
+  else if Verif.C09.Model.jsonIsNumberLiteral bs
+       then match naked_num D bs with Ok i => i | _ => IStr bs end
+       else IStr bs.
 
 Definition rd_quoted (D : dopts) (key : bool) (bs : list N) : item :=
   if jsonNakedBoolNumInQuotedStr && dkeyAsStr D && negb (isnil bs) && key then quoted_key D bs else IStr bs.
